@@ -152,6 +152,9 @@ def cmd_run(filt):
         if filt and not any(f in name for f in filt):
             continue
         meta = json.load(open(os.path.join(d, "meta.json")))
+        if meta.get("status") == "superseded":
+            print("%-24s superseded (see meta.json)" % name)
+            continue
         try:
             rc, out = sh("git apply %s" % os.path.join(d, "patch.diff"), cwd=REPO)
             if rc != 0:
